@@ -143,11 +143,18 @@ static mut FINALIZES: u32 = 0;
 static mut ADVANCES: u32 = 0;
 /// Contract of Global::collect as seen by unpin: it may run deferred functions (which never touch
 /// this participant's counters) and is entered with the participant still pinned.
+static mut COLLECT_LEAVES_GUARDS: usize = 0;   // guards that destructors run by the collection created and kept alive
 fn k_collect(_g: &Global, guard: &Guard) {
     unsafe {
         COLLECTS += 1;
         COLLECT_GUARD_LOCAL = guard.local as usize;
         COLLECT_PINNED = !guard.local.is_null() && raw_epoch(&(*guard.local).epoch) & 1 == 1;
+        // user destructors may enter critical sections of THIS participant; a guard they keep alive
+        // (e.g. in a thread-local) is one more live guard when the collection returns
+        if !guard.local.is_null() && COLLECT_LEAVES_GUARDS > 0 {
+            let l = &*guard.local;
+            l.guard_count.set(l.guard_count.get() + COLLECT_LEAVES_GUARDS);
+        }
     }
 }
 fn k_finalize(_l: &Local) { unsafe { FINALIZES += 1; } }
@@ -229,15 +236,18 @@ fn c16_unpin() {
     let (gc, must, collecting, ep) = (l.guard_count.get(), l.must_collect.get(), l.collecting.get(), raw_epoch(&l.epoch));
     GWORD = epoch_word(&c.global.epoch); LWORD = epoch_word(&l.epoch);
     G_MODE = 2; PIN_VAL = ep & !1; G_BUDGET = budget();
+    COLLECT_LEAVES_GUARDS = kani::any(); kani::assume(COLLECT_LEAVES_GUARDS <= 2);
     l.unpin();
-    assert!(l.guard_count.get() == gc - 1, "C16.unpin.counts_one_guard_less");
+    let kept = if COLLECTS > 0 { COLLECT_LEAVES_GUARDS * COLLECTS as usize } else { 0 };
+    assert!(l.guard_count.get() == gc - 1 + kept, "C16.unpin.counts_one_guard_less");
     assert!(inv_l(l), "C16.unpin.invariant");
-    assert!((raw_epoch(&l.epoch) & 1 == 0) == (gc == 1), "C13.unpin.clears_pinned_bit_only_for_outermost_guard");
+    assert!((raw_epoch(&l.epoch) & 1 == 0) == (gc == 1 && kept == 0), "C13.unpin.clears_pinned_bit_only_for_outermost_guard");
     if gc > 1 { assert!(L_UNPIN_WRITES == 0 && COLLECTS == 0 && (raw_epoch(&l.epoch) >> 1) == (ep >> 1), "C16.unpin.inner_guard_changes_nothing_else"); }
     assert!(COLLECTS == (gc == 1 && !collecting && must) as u32, "C15.unpin.runs_scheduled_collection_from_outermost_unpin");
     if COLLECTS > 0 { assert!(COLLECT_PINNED && COLLECT_GUARD_LOCAL == l as *const Local as usize && !l.must_collect.get(), "C13.unpin.collects_while_still_pinned"); }
     assert!(l.collecting.get() == collecting, "C16.unpin.collecting_flag_restored");
-    assert!(FINALIZES == (gc == 1 && hc == 0) as u32, "C15.unpin.finalizes_only_handleless_participant");
+    assert!(FINALIZES == (gc == 1 && kept == 0 && hc == 0) as u32, "C15.unpin.finalizes_only_handleless_participant");
+    kani::cover!(kept > 0, "cover.unpin.destructor_kept_a_guard");
     assert!(other.guard_count.get() == o_gc && raw_epoch(&other.epoch) == o_ep, "C16.unpin.other_participant_untouched");
     assert!(G_STORES == 0, "C14.unpin.never_moves_the_clock");
     kani::cover!(gc == 1 && COLLECTS == 1, "cover.unpin.collects");
